@@ -367,7 +367,7 @@ theorem netTokens_plain (g : Grammar) (c : Cpt) (hdot : splitOn '.' c.name = [c.
 theorem isDirective_head (g : Grammar) (a : Char) (x y : Str) : isDirective g (a :: x) = isDirective g (a :: y) := by
   simp [isDirective]
 
-theorem line_roundtrip (g : Grammar) (hg : grammarWF g = true) (r : Rule) (hr : r ∈ g.rules) (c : Cpt)
+theorem line_roundtrip_partial (g : Grammar) (hg : grammarWF g = true) (r : Rule) (hr : r ∈ g.rules) (c : Cpt)
     (hn : normalCpt g r c = true) (s : Str) (hp : printCpt g c = some s) :
     ∃ kp os, (∀ used, parse g used [] s
         = .ok ({ c with args := normArgs c.args, kwpos := kp, opts := os, string := s }, none))
@@ -665,17 +665,17 @@ theorem netTokens_reparsed (g : Grammar) (c : Cpt) (kp : Option Nat) (os s : Str
   · simp [hk, nodesWithKw_nokw]
   · rw [hkp hk]
 
-/-- **line_roundtrip_full.**  Line level, complete statement: for a component in normal form whose option
+/-- **line_roundtrip_full_partial.**  Line level, complete statement: for a component in normal form whose option
     table is in normal form, the printed line parses to a component that the specification identifies
     with the original (`sameCpt`: class, name, type, nodes, arguments up to `normArgs`, keyword, option
     table), and printing that component gives the same line again (print is idempotent). -/
-theorem line_roundtrip_full (g : Grammar) (hg : grammarWF g = true) (r : Rule) (hr : r ∈ g.rules) (c : Cpt)
+theorem line_roundtrip_full_partial (g : Grammar) (hg : grammarWF g = true) (r : Rule) (hr : r ∈ g.rules) (c : Cpt)
     (hn : normalCpt g r c = true) (o : Opts) (ho : optsParse c.opts = .ok o) (hon : optsNormal o = true)
     (s : Str) (hp : printCpt g c = some s) :
     ∃ c', (∀ used, parse g used [] s = .ok (c', none)) ∧ sameCpt c c' = true ∧ printCpt g c' = some s
       ∧ c'.name = c.name ∧ (∃ o', optsParse c'.opts = .ok o')
       ∧ strip s = s ∧ s.head? = c.name.head? ∧ c.name.head? ≠ some '.' ∧ c.name ≠ [] := by
-  obtain ⟨kp, os, hparse, hkp, ⟨o', os', ho', hof, hos⟩, hst1, hst2, hst3, hst4⟩ := line_roundtrip g hg r hr c hn s hp
+  obtain ⟨kp, os, hparse, hkp, ⟨o', os', ho', hof, hos⟩, hst1, hst2, hst3, hst4⟩ := line_roundtrip_partial g hg r hr c hn s hp
   rw [ho] at ho'; cases ho'
   obtain ⟨s', hf, hpo, hst⟩ := optsParse_format o hon
   rw [hof] at hf; cases hf
@@ -818,24 +818,24 @@ theorem selOK_of_fields (g : Grammar) (hg : grammarWF g = true) (r : Rule) (hr :
     (`decide` over the whole regenerated table: re-checked against the source on every run.) -/
 theorem table_wf2 : grammarWF theGrammar = true := by decide +kernel
 
-/-- **line_roundtrip_table.**  `line_roundtrip` for the checked-out grammar: for EVERY rule of the
+/-- **line_roundtrip_table_partial.**  `line_roundtrip_partial` for the checked-out grammar: for EVERY rule of the
     table and every component in normal form. -/
-theorem line_roundtrip_table (r : Rule) (hr : r ∈ theGrammar.rules) (c : Cpt)
+theorem line_roundtrip_table_partial (r : Rule) (hr : r ∈ theGrammar.rules) (c : Cpt)
     (hn : normalCpt theGrammar r c = true) (s : Str) (hp : printCpt theGrammar c = some s) :
     ∃ kp os, (∀ used, parse theGrammar used [] s
         = .ok ({ c with args := normArgs c.args, kwpos := kp, opts := os, string := s }, none))
       ∧ (c.kw ≠ [] → kp = c.kwpos)
       ∧ (∃ o os', optsParse c.opts = .ok o ∧ optsFormat o = some os' ∧ os = strip os')
       ∧ strip s = s ∧ s.head? = c.name.head? ∧ c.name.head? ≠ some '.' ∧ c.name ≠ [] :=
-  line_roundtrip theGrammar table_wf2 r hr c hn s hp
+  line_roundtrip_partial theGrammar table_wf2 r hr c hn s hp
 
-/-- **line_roundtrip_full_table.**  The complete line-level statement for the checked-out grammar. -/
-theorem line_roundtrip_full_table (r : Rule) (hr : r ∈ theGrammar.rules) (c : Cpt)
+/-- **line_roundtrip_full_table_partial.**  The complete line-level statement for the checked-out grammar. -/
+theorem line_roundtrip_full_table_partial (r : Rule) (hr : r ∈ theGrammar.rules) (c : Cpt)
     (hn : normalCpt theGrammar r c = true) (o : Opts) (ho : optsParse c.opts = .ok o) (hon : optsNormal o = true)
     (s : Str) (hp : printCpt theGrammar c = some s) :
     ∃ c', (∀ used, parse theGrammar used [] s = .ok (c', none)) ∧ sameCpt c c' = true
       ∧ printCpt theGrammar c' = some s ∧ c'.name = c.name := by
-  obtain ⟨c', h1, h2, h3, h4, _⟩ := line_roundtrip_full theGrammar table_wf2 r hr c hn o ho hon s hp
+  obtain ⟨c', h1, h2, h3, h4, _⟩ := line_roundtrip_full_partial theGrammar table_wf2 r hr c hn o ho hon s hp
   exact ⟨c', h1, h2, h3, h4⟩
 
 /-! non-vacuity: concrete components of several rule shapes satisfy every hypothesis -/
